@@ -389,3 +389,91 @@ def normalize_step(ctx, prog):
             bad.append("walks %s" % rng[:80])
     ctx.ob(RS, "normalize_block_hash_in_place_internal: run-collapsing step table (reset on a new symbol, +1 on a repeat, saturate and skip the store at MAX_SEQUENCE_SIZE, store + advance otherwise)",
            not bad, "; ".join(bad)[:600] or "4 run definitions, 2 previous-symbol definitions, 1 store", f.loc())
+
+
+def run_counters(ctx, prog, which=("validator", "parser")):
+    """the run detectors of the validator (`verify_block_hash_internal`) and of the normalising parser (`parse_block_hash_from_bytes`), as
+    step tables: run counter := 0 at the start and on a symbol that differs from the previous one (which then becomes the previous one);
+    := run + 1 on a repeat; in the parser := MAX_SEQUENCE_SIZE exactly when a repeat has brought it to >= MAX_SEQUENCE_SIZE.  The previous
+    symbol starts at the sentinel.  (What the detectors answer / store is the business of validator_outcomes / the parser rules.)"""
+    from ..sym import path_conds, bool_atom
+    from .summary import _belief_edge
+    RS = "SA-STEP"
+    table = {"validator": ("hash::algorithms::verify_block_hash_internal", [0, 0], 3),
+             "parser": ("hash::algorithms::parse_block_hash_from_bytes", [0, 0, 3], 4)}
+    n = 0
+    for w in which:
+        suffix, want_consts, ndefs = table[w]
+        f = prog.fn(suffix)
+        ctx.visit(f, weak=True)
+        sy = Sym(f)
+
+        items = set()
+
+        def atoms_at(b, R_=None):
+            out = set()
+            for c in path_conds(f, sy, b):
+                if len(c) > 3 and _belief_edge(f, c[3][0]):
+                    continue
+                a = bool_atom(c)
+                if a is None or a[0] == "truth":
+                    continue
+                l_, r_ = strip(a[1]), strip(a[2])
+                item = r_[0] == "local" and f.locals[r_[1]]["ty"] == "u8" and const_value(l_) is None
+                if item:
+                    out.add(("ITEM", a[0], "PREV:%d" % r_[1]))
+                    items.add(canon(l_))
+                elif l_[0] == "local" and l_[1] == R_ and const_value(r_) is not None:
+                    out.add(("RUN", a[0], const_value(r_)))
+            return out
+        run = prev = None
+        for l, ds in f.defs.items():
+            if l <= f.argc or len(ds) < 2:
+                continue
+            vals = [(b, strip(sy.rvalue(x)) if k == "rv" else None) for (b, _i, k, x) in ds]
+            txt = [canon(v) if v is not None else "call" for _, v in vals]
+            me = "local:%s_%d" % (f.locals[l]["name"] or "", l)
+            if f.locals[l]["ty"] == "usize" and any(t == "Add(%s,1)" % me for t in txt):
+                consts = sorted(const_value(v) for _, v in vals if v is not None and const_value(v) is not None)
+                if len(consts) == len(vals) - 1 and len(consts) >= 1 and run is None:
+                    run = (l, vals, consts)
+            if f.locals[l]["ty"] == "u8" and len(vals) == 2 and any(const_value(v) == 64 for _, v in vals if v is not None):
+                prev = (l, vals)
+        if run is None or prev is None:
+            ctx.ob(RS, "%s: run counter and previous symbol identified" % f.short, False,
+                   "run counter (a usize with a `+ 1` step and constant resets) %s, previous symbol (a u8 starting at the sentinel 64) %s" % (
+                       "found" if run else "not found", "found" if prev else "not found"), f.loc())
+            continue
+        R_, P_ = run[0], prev[0]
+        rme = "local:%s_%d" % (f.locals[R_]["name"] or "", R_)
+        bad = []
+        if run[2] != want_consts:
+            bad.append("the run counter is given the constants %s (reviewed: %s)" % (run[2], want_consts))
+        seen0 = []
+        for b, v in run[1]:
+            at = atoms_at(b, R_)
+            t = canon(v)
+            if const_value(v) == 0:
+                ok = at in (set(), {("ITEM", "Ne", "PREV:%d" % P_)})
+                seen0.append(bool(at))
+            elif const_value(v) == 3:
+                ok = at == {("ITEM", "Eq", "PREV:%d" % P_), ("RUN", "Ge", 3)}
+            else:
+                ok = t == "Add(%s,1)" % rme and at == {("ITEM", "Eq", "PREV:%d" % P_)}
+            if not ok:
+                bad.append("run := %s under %s" % (t[-40:], sorted(at)))
+        if sorted(seen0) != [False, True]:
+            bad.append("the run counter is reset to 0 at %s (reviewed: once at the start, once on a new symbol)" % seen0)
+        for b, v in prev[1]:
+            at = atoms_at(b, R_)
+            if const_value(v) == 64:
+                ok = at == set()
+            else:
+                ok = canon(v) in items and at == {("ITEM", "Ne", "PREV:%d" % P_)}
+            if not ok:
+                bad.append("prev := %s under %s" % (canon(v)[-40:], sorted(at)))
+        n += 1
+        ctx.ob(RS, "%s: run detector step table (0 at the start and on a new symbol, which becomes the previous one; +1 on a repeat%s)" % (
+            f.short, "; saturates at MAX_SEQUENCE_SIZE" if w == "parser" else ""),
+            not bad, "; ".join(bad)[:600] or "%d run-counter definitions, 2 previous-symbol definitions" % len(run[1]), f.loc())
+    ctx.floor(RS, n, len(which), "run detectors read")
